@@ -530,6 +530,24 @@ func runC19(c *fw.Ctx) {
 			same("after Reverse", holderL.Reverse().Get(1))
 			same("SubList", holderL.SubList(0, 0).Get(1))
 			same("Concat", holderL.Concat(at.NewList()).Get(1))
+			// somebody stores a handle to an inner embedding level (legal: it is a List / Object value); the outer
+			// registration must survive that
+			inners := append([]any{fx.inner}, fx.mids...)
+			for _, h := range inners {
+				drive.Protect(func() { at.NewList().Add(h) })
+				drive.Protect(func() { at.NewObject().Set("inner", h) })
+				drive.Protect(func() { at.NewList(0).SetTF("#0", h) })
+			}
+			c19Judge(c, fx, "Ego(after an inner handle was stored elsewhere)", egoOf(fx.outer), in)
+			switch x := fx.outer.(type) {
+			case at.List:
+				c19Judge(c, fx, "Add(after an inner handle was stored elsewhere)", x.Add(1), in)
+				c19Judge(c, fx, "Reverse(after an inner handle was stored elsewhere)", x.Reverse(), in)
+			case at.Object:
+				c19Judge(c, fx, "Set(after an inner handle was stored elsewhere)", x.Set("z", 1), in)
+				c19Judge(c, fx, "Unset(after an inner handle was stored elsewhere)", x.Unset("z"), in)
+			}
+			same("Get after an inner handle was stored elsewhere", at.NewList(fx.outer).Get(0))
 			// Ego of every level
 			c19Judge(c, fx, "Ego", egoOf(fx.outer), in)
 		})
